@@ -251,13 +251,39 @@ func c05r3(c *Ctx, id string) {
 		c.Check(sd.invoke.Parent() == fn, id, "write-site@"+fname(fn), sd.invoke.Pos(), "single write attempt in the Save body", "the write is performed inside a nested function")
 		// dirty dump: arg 1
 		dd := resolveCell(sd.invoke.Common().Args[1])
+		// the copy may be made by a helper that returns the fresh map (alone or with a count)
+		home := fn
+		var homeCall *ssa.Call
+		{
+			idx := 0
+			src := dd
+			if ex, isEx := src.(*ssa.Extract); isEx {
+				idx, src = ex.Index, ex.Tuple
+			}
+			if call, isCall := src.(*ssa.Call); isCall {
+				if h := call.Common().StaticCallee(); h != nil && w.inModule(h) && h.Pkg == fn.Pkg && len(h.Blocks) > 0 {
+					var built ssa.Value
+					nRet := 0
+					allInstrs(h, func(in ssa.Instruction) {
+						if r, isR := in.(*ssa.Return); isR && in.Parent() == h && idx < len(r.Results) {
+							nRet++
+							built = resolveCell(r.Results[idx])
+						}
+					})
+					if _, isMM := built.(*ssa.MakeMap); isMM && nRet == 1 {
+						dd, home, homeCall = built, h, call
+						c.see(h)
+					}
+				}
+			}
+		}
 		mm, isMap := dd.(*ssa.MakeMap)
 		if !isMap {
 			c.Fail(id, "dirty-dump@"+fname(fn), sd.invoke.Pos(), "argument 1 of Metadata.Save is not a map built here: %s", w.Origin(sd.invoke.Common().Args[1]))
 			continue
 		}
 		var ups []*ssa.MapUpdate
-		for _, f := range withAnon(fn) {
+		for _, f := range withAnon(home) {
 			allInstrs(f, func(in ssa.Instruction) {
 				if mu, ok := in.(*ssa.MapUpdate); ok && resolveCell(mu.Map) == ssa.Value(mm) {
 					ups = append(ups, mu)
@@ -271,10 +297,17 @@ func c05r3(c *Ctx, id string) {
 		up := ups[0]
 		cl := up.Parent()
 		var rcv ssa.Value
-		allInstrs(fn, func(in ssa.Instruction) {
+		allInstrs(home, func(in ssa.Instruction) {
 			cc := callOf(in)
 			if m, r := csmapMethod(cc); m == "Range" && len(cc.Args) == 2 && closureOf(cc.Args[1]) == cl {
 				rcv = r
+				if p, isP := unwrap(r).(*ssa.Parameter); isP && homeCall != nil {
+					for i, hp := range home.Params {
+						if hp == p && i < len(homeCall.Common().Args) {
+							rcv = homeCall.Common().Args[i]
+						}
+					}
+				}
 			}
 		})
 		okd := rcv != nil && strings.HasSuffix(w.Origin(rcv), ".GetOffsets)()#1") && len(cl.Params) == 2 &&
